@@ -168,7 +168,7 @@ pub fn replay(args: &Args) {
                     let got = td.rank(x).unwrap();
                     nq += 1;
                     if !close(got, exp) {
-                        bad.push(json!({"what":"rank","v":x,"exp":d["rk"][i],"got":got}));
+                        bad.push(json!({"what":"rank","v":x,"exp":d["rk"][i],"got":format!("{got:?}")}));
                     }
                 }
                 for (i, q) in d["qs"].as_array().unwrap().iter().enumerate() {
@@ -178,7 +178,7 @@ pub fn replay(args: &Args) {
                     match rat(&d["qt"][i]) {
                         Some(exp) => {
                             if !close(got, exp) {
-                                bad.push(json!({"what":"quantile","q":x,"exp":d["qt"][i],"got":got}));
+                                bad.push(json!({"what":"quantile","q":x,"exp":d["qt"][i],"got":format!("{got:?}")}));
                             }
                         }
                         None => {
@@ -281,9 +281,47 @@ impl Td {
 fn chk(out: &mut Shards, id: usize, t: &mut Td, rng: &mut Rng) -> bool {
     let r = catch(std::panic::AssertUnwindSafe(|| {
         let k = t.d.k();
+        // queries flush the update buffer: whichever query comes first on the untouched object must
+        // answer as it does after a serialize() (each one tried first on its own copy)
+        let untouched = t.d.clone();
         let bytes = t.d.serialize();
         let (min, max, cs) = decode(&bytes);
         let tw = t.d.total_weight();
+        let mut first_bad: Vec<&str> = vec![];
+        if tw > 0 {
+            let probes: Vec<f64> = vec![min, max, cs[cs.len() / 2].0, cs[0].0, cs[cs.len() - 1].0];
+            let same = |a: Option<f64>, b: Option<f64>| a.map(f64::to_bits) == b.map(f64::to_bits);
+            for &v in &probes {
+                if !v.is_nan() && !same(untouched.clone().rank(v), t.d.rank(v)) {
+                    first_bad.push("rank");
+                }
+            }
+            for &q in &[0.0, 0.1, 0.5, 0.9, 1.0] {
+                if !same(untouched.clone().quantile(q), t.d.quantile(q)) {
+                    first_bad.push("quantile");
+                }
+            }
+            let sp = [probes[2]];
+            if !sp[0].is_nan() {
+                let bits = |v: Option<Vec<f64>>| v.map(|x| x.iter().map(|y| y.to_bits()).collect::<Vec<_>>());
+                if bits(untouched.clone().cdf(&sp)) != bits(t.d.cdf(&sp)) {
+                    first_bad.push("cdf");
+                }
+                if bits(untouched.clone().pmf(&sp)) != bits(t.d.pmf(&sp)) {
+                    first_bad.push("pmf");
+                }
+            }
+            let u = untouched.clone();
+            if u.total_weight() != tw || u.min_value().map(f64::to_bits) != t.d.min_value().map(f64::to_bits)
+                || u.max_value().map(f64::to_bits) != t.d.max_value().map(f64::to_bits) {
+                first_bad.push("scalars");
+            }
+            let fr = untouched.clone().freeze();
+            if !same(fr.quantile(0.5), t.d.quantile(0.5)) || !same(fr.rank(probes[2]), t.d.rank(probes[2])) {
+                first_bad.push("freeze");
+            }
+        }
+        first_bad.dedup();
         if tw == 0 {
             return json!({"op":"DChk","id":id,"k":k,"tw":0,"ws":[],"means":[],"len":bytes.len(),"min":0,"max":0,"smin":0,"smax":0,
                 "rmin1e6":0,"rmax1e6":1000000,"cmin":0,"cmax":0,"img":bytes,"rev":bytes[5] & 4 != 0,"minb":[],"maxb":[],"mb":[]});
@@ -352,7 +390,7 @@ fn chk(out: &mut Shards, id: usize, t: &mut Td, rng: &mut Rng) -> bool {
             "means":means_r,"len":bytes.len(),
             "min":rk_vals[0],"max":rk_vals[1],"smin":rk_vals[2],"smax":rk_vals[3],
             "rs":&rr_r[4..],"r0":rr_r[0],"r1":rr_r[1],"rbelow":rr_r[2],"rabove":rr_r[3],
-            "qs":qs_r,"cdf_ok":cdf_ok,"pmf_ok":pmf_ok,"empty_split_ok":empty_split_ok,
+            "qs":qs_r,"first_bad":first_bad,"cdf_ok":cdf_ok,"pmf_ok":pmf_ok,"empty_split_ok":empty_split_ok,
             "rq":rq,"q6":q6,"res6":res6,
             "cmin":t.cmin,"cmax":t.cmax,
             "rev":bytes[5] & 4 != 0,
